@@ -308,8 +308,10 @@ def run(ctx):
     ndefs = 3 if ctx.quick else 20
     serial = 0
     for i in range(ndefs):
-        d = gen.gen_definition(ctx.rng, n_state=ctx.rng.choice([2, 3]), n_control=ctx.rng.choice([1, 2]), n_calib=ctx.rng.choice([1, 2]),
-                               n_sensors=ctx.rng.choice([1, 2]), depth=1, max_readings=2)
+        n_state, n_control, n_calib, n_sensors = (ctx.rng.choice([2, 3]), ctx.rng.choice([1, 2]), ctx.rng.choice([1, 2]), ctx.rng.choice([1, 2]))
+        if i % 3 == 0:   # the first definition of every three always has two of everything: faults that need a second control / sensor always apply
+            n_control, n_calib, n_sensors = 2, 2, 2
+        d = gen.gen_definition(ctx.rng, n_state=n_state, n_control=n_control, n_calib=n_calib, n_sensors=n_sensors, depth=1, max_readings=2)
         if i % 3 == 0:   # string-keyed stream: make sure one sensor has two readings (faults that need a first and a last reading)
             k0 = sorted(d.sensors)[0]
             while len(d.sensors[k0]) < 2:
